@@ -77,38 +77,7 @@ def check(ctx, report):
         return
     for x in (fp, fr, hk):
         report.touch(x)
-    report.count('C16.R2', 5)
-    pairs = None
-    for n in ast.walk(fp.node):
-        if isinstance(n, (ast.List, ast.Tuple)) and n.elts and all(isinstance(e, ast.Tuple) and len(e.elts) == 2 for e in n.elts):
-            pairs = [[ast.unparse(e.elts[0]).split('.')[-1], e.elts[1].value if isinstance(e.elts[1], ast.Constant) else None] for e in n.elts]
-    if pairs != spec['fingerprints']['order']:
-        report.add('C16.R2', fp.construct + '@order', 'fingerprints are %s, the definition says %s' % (pairs, spec['fingerprints']['order']))
-    if 'self.key_bytes' not in ast.unparse(fp.node):
-        report.add('C16.R2', fp.construct + '@input', 'fingerprints are not computed over key_bytes')
-    md5_branch = None
-    for n in ast.walk(fr.node):
-        if isinstance(n, ast.If) and 'MD5' in ast.unparse(n.test):
-            md5_branch = n
-    if md5_branch is None:
-        report.add('C16.R2', fr.construct + '@md5', 'no MD5 specific rendering')
-    else:
-        t = ast.unparse(md5_branch.test)
-        eq = '==' in t
-        a, b = (md5_branch.body, md5_branch.orelse) if eq else (md5_branch.orelse, md5_branch.body)
-        sa, sb = ' '.join(ast.unparse(x) for x in a), ' '.join(ast.unparse(x) for x in b)
-        if not ("':'.join" in sa and 'hexlify' in sa and 'wrap' in sa and ', 2)' in sa):
-            report.add('C16.R2', fr.construct + '@md5', 'MD5 fingerprint is not colon separated hex pairs')
-        if 'b64encode' not in sb or 'urlsafe' in sb:
-            report.add('C16.R2', fr.construct + '@base64', 'SHA fingerprints are not standard base64')
-    retv = [n for n in ast.walk(fr.node) if isinstance(n, ast.Return)]
-    if not retv or "':'.join((prefix, fingerprint))" not in ast.unparse(retv[-1]).replace('[', '(').replace(']', ')'):
-        report.add('C16.R2', fr.construct + '@prefix', 'fingerprint is not "<hash name>:<value>"')
-    if 'hash_bytes(hash_type, key_bytes)' not in ast.unparse(fr.node):
-        report.add('C16.R2', fr.construct + '@digest', 'digest is not hash_bytes(hash_type, key_bytes)')
-    src = ast.unparse(hk.node)
-    if 'base64.b64encode(self.key_bytes)' not in src:
-        report.add('C16.R2', hk.construct + '@known_hosts', 'known_hosts is not base64(key_bytes)')
+    fingerprint_tabulation(ctx, report, pk, fp, fr, hk, spec['fingerprints'])
     # ---- R5: the name-lists that are hashed are the wire name-lists (scanner of the text list machinery, shared with C07.R8)
     report.rule('C16.R5', 'name-lists fed to hassh: split at commas, order kept, unknown names preserved one by one')
     from ..textlists import string_array_table
@@ -203,3 +172,69 @@ def hassh_tabulation(report, h, hs, thorough=False):
         report.add('C16.R1', h.construct + '@tabulation', '_hassh left the subset the tabulation understands: %s' % e)
         return
     report.sample({'rule': 'C16.R1', 'tabulated_shapes': n, 'pools': 'empty, one unknown, one known, mixed, two known -- in every one of the four positions'})
+
+
+def fingerprint_tabulation(ctx, report, pk, fp, fr, hk, spec):
+    """``fingerprints``, ``_fingerprint`` and the known_hosts line of ``host_key_asdict`` evaluated (sa.miniexec) on sample key
+    blobs and compared with the OpenSSH renderings: 'SHA256:' / 'SHA1:' + standard base64 of the digest, 'MD5:' + colon
+    separated lower-case hex pairs, known_hosts = base64(blob); digests and codecs are the rule's own (hashlib, base64)"""
+    import base64
+    import binascii
+    import collections
+    import hashlib
+    import textwrap
+    from ..miniexec import Evaluator, Native, Obj, Raised, Unsupported, class_call_hook
+    HASH = {'SHA2_256': hashlib.sha256, 'SHA1': hashlib.sha1, 'MD5': hashlib.md5}
+    tokens = {k: Obj(name=k) for k in HASH}
+
+    def extra(n, ev):
+        d = ast.unparse(n.func)
+        if d == 'hash_bytes':
+            t, data = ev.ev(n.args[0]), ev.ev(n.args[1])
+            if not isinstance(t, Obj) or t.name not in HASH:
+                raise Unsupported('hash_bytes with an unknown algorithm')
+            return HASH[t.name](bytes(data)).digest()
+        if d == 'binascii.hexlify':
+            return binascii.hexlify(ev.ev(n.args[0]))
+        if d == 'textwrap.wrap':
+            return textwrap.wrap(*[ev.ev(a) for a in n.args])
+        if d in ('base64.b64encode', 'base64.standard_b64encode', 'base64.urlsafe_b64encode'):
+            return getattr(base64, d.split('.')[1])(ev.ev(n.args[0]))
+        if d in ('six.ensure_text', 'six.ensure_str'):
+            v = ev.ev(n.args[0])
+            return v.decode('ascii') if isinstance(v, (bytes, bytearray)) else v
+        if d in ('OrderedDict', 'collections.OrderedDict'):
+            return collections.OrderedDict(*[ev.ev(a) for a in n.args])
+        return NotImplemented
+
+    def names(name):
+        if name.startswith('Hash.') and name.split('.', 1)[1] in tokens:
+            return tokens[name.split('.', 1)[1]]
+        raise Unsupported('free name %s' % name)
+    hook = class_call_hook(pk, extra, None)
+    try:
+        for blob in (b'\x00\x00\x00\x0bssh-ed25519\x00\x00\x00\x20' + bytes(range(32)), b'\x00\x00\x00\x07ssh-rsa' + b'\x01' * 270, b''):
+            report.count('C16.R2')
+            me = Obj(key_bytes=blob)
+            got = Evaluator({'self': me}, hook, names).ev(ast.parse('f()', mode='eval').body) if False else None
+            ev = Evaluator({'self': me}, hook, names)
+            got = ev.function(fp.node)
+            want = collections.OrderedDict()
+            for hname, label in spec['order']:
+                digest = HASH[hname](blob).digest()
+                if hname == 'MD5':
+                    text = ':'.join(textwrap.wrap(binascii.hexlify(digest).decode('ascii'), 2))
+                else:
+                    text = base64.b64encode(digest).decode('ascii')
+                want[tokens[hname]] = '%s:%s' % (label, text)
+            if not isinstance(got, dict) or [(getattr(k, 'name', k), v) for k, v in got.items()] != [(k.name, v) for k, v in want.items()]:
+                shown = [(getattr(k, 'name', k), v[:30]) for k, v in got.items()] if isinstance(got, dict) else got
+                report.add('C16.R2', fp.construct + '@rendering', 'fingerprints of a %d byte blob are %s..., the definition gives %s...' % (
+                    len(blob), shown, [(k.name, v[:30]) for k, v in want.items()]))
+                break
+    except (Unsupported, Raised) as e:
+        report.add('C16.R2', fp.construct + '@tabulation', 'the fingerprint code left the subset the tabulation understands: %s' % e)
+    report.count('C16.R2')
+    src = ast.unparse(hk.node)
+    if 'base64.b64encode(self.key_bytes)' not in src.replace('standard_b64encode', 'b64encode'):
+        report.add('C16.R2', hk.construct + '@known_hosts', 'known_hosts is not base64(key_bytes)')
